@@ -148,7 +148,7 @@ class rule_reference_map:
     types = {"self": RuleSet, "valid_codes": TSet(StrN), "reference_map": RefMap, "name_map": RefMap, "name_collisions": TSet(StrN),
              "group_map": GroupMap, "alias_map": GroupMap}
     ret = RefMap
-    opts = {"timeout_ms": 12000, "max_unknown": 2, "alphabet": "AB1", "max_len": 2}
+    opts = {"timeout_ms": 8000, "max_unknown": 2, "alphabet": "AB1", "max_len": 2}
 
     def requires(self):
         reg = self._register
